@@ -67,7 +67,7 @@ def sym_boolresult(name):
     return r, b
 
 
-def check_result(c, label, r, ref, CSI, bits=None):
+def check_result(c, label, r, ref, CSI, bits=None, operands=()):
     """ref (z3 term: Bool or BitVec) must be contained in the abstract result r"""
     from claripy.backends.backend_vsa.bool_result import BoolResult
     if z3.is_bool(ref):
@@ -90,6 +90,12 @@ def check_result(c, label, r, ref, CSI, bits=None):
     c.watch["ref"] = ref
     c.watch["result_mask"] = r._mask
     c.check(label + "/gamma", absval.contains(r, ref), "the reference result of member operands is not in gamma(result)")
+    # name discipline (StridedInterval.eq answers True for two values of the same name): an operand's name on the result only if the
+    # result always has that operand's value
+    for o, oval in operands:
+        if isinstance(o, CSI) and getattr(o, "_name", None) == getattr(r, "_name", object()) and z3.is_bv(oval) and oval.size() == ref.size():
+            c.check(label + "/name-only-if-same-value", ref == oval,
+                    "the result carries an operand's name although its value can differ from that operand's: a later == of the two answers a definite True")
 
 
 # ---- the operation table: name -> (argument sorts, builder of harness arguments) -----------------------------------
@@ -175,7 +181,7 @@ def ob_dispatch(op, w, tier="quick", arity=2, bool_operands=False):
             where = next((f"{fr.name}:{fr.lineno}" for fr in reversed(tb) if "backend" in fr.filename), "?")
             c.fail(f"{op}/raises", f"{type(e).__name__}: {e} at {where}", kind="raises")
             return "raised"
-        check_result(c, op, r, ref, CSI)
+        check_result(c, op, r, ref, CSI, operands=tuple((a_, z_) for a_, z_ in zip(args, zargs) if not isinstance(a_, int)))
         return "answered"
 
     res = explore(body, _opts(tier))
@@ -218,7 +224,7 @@ def ob_if(w, tier="quick"):
         ok, r = _guard(c, "If", lambda: B._call("If", [cond, t, f]))
         if not ok:
             return r
-        check_result(c, "If", r, z3.If(b, x, y), CSI)
+        check_result(c, "If", r, z3.If(b, x, y), CSI, operands=((t, x), (f, y)))
         return "answered"
     return explore(body, _opts(tier))
 
@@ -492,6 +498,16 @@ def replay(task, failure):
         return {"reproduced": True, "text": text}
 
     try:
+        if "name-only-if-same-value" in str(failure.get("label")):
+            from claripy.backends.backend_vsa import StridedInterval as SI
+            t = SI(bits=8, stride=1, lower_bound=1, upper_bound=5, name="kf_t")
+            f = SI(bits=8, stride=1, lower_bound=1, upper_bound=5, name="kf_f")
+            r = B._call("If", [MaybeResult(), t, f]) if fn in ("ob_if",) else None
+            if r is not None and r.name in (t.name, f.name):
+                other = f if r.name == t.name else t
+                return bad(f"vsa If(Maybe, {t} named {t.name!r}, {f} named {f.name!r}) returns an interval named {r.name!r}: it compares == to that branch with "
+                           f"{r.eq(t if r.name == t.name else f).value} although the If takes the other branch's value (any of {sorted(mem(other))}) when the condition says so")
+            return {"reproduced": False, "text": "the join of two branches with equal intervals gets a name of its own on the real code"}
         if fn == "ob_dispatch":
             op = kw["op"]
             if kw.get("bool_operands"):
